@@ -36,6 +36,9 @@ def run(ck):
     header_derivation(ck, "C02.3")
     fragments(ck, "C02.4")
     numbering(ck, "C02.5")
+    ck.clause("C02.6", "map coordinates and lengths reach the records at full precision; queries trimmed, references not")
+    from .c17 import no_narrowing
+    no_narrowing(ck, "C02.6")
     n = R.run_role_rule(ck, "C02.3", modules={"src.alignment.alignment_results", "src.alignment.aligner"})
     ck.floor("C02 role bindings judged", n, 40)
 
